@@ -34,6 +34,7 @@ pub fn generic_replay(case: &Value) -> Option<String> {
         Some("parse") => props::c05::replay(case),
         Some("tree") => props::c06::replay(case),
         Some("prep") => props::c07::replay(case),
+        Some("c01big") => props::c01::replay_big(case),
         Some("c02big") => props::c02::replay_big(case),
         Some("prep_tree") => props::c07::replay_tree(case),
         Some("reject") => props::c14::replay(case),
@@ -45,9 +46,9 @@ pub fn generic_replay(case: &Value) -> Option<String> {
         Some("archive") => props::c16::replay(case),
         Some("cli") => props::c17::replay(case),
         Some("convert") => props::c19::replay(case),
-        Some("sanitize") => props::c15::replay(case),
+        Some("sanitize") | Some("sanitize_history") => props::c15::replay(case),
         Some("unsafe_ex") | Some("unsafe_ex_history") => props::c18::replay(case),
-        Some("colour") | Some("c20big") => props::c20::replay(case),
+        Some("colour") | Some("colour_ext") | Some("c20big") => props::c20::replay(case),
         other => Some(format!("unknown replay kind {other:?}")),
     }
 }
